@@ -984,33 +984,42 @@ def mon_namespace(ops, lines):
 
 
 def mon_cs(ops, lines):
-    """C06 / C12 / C15 on the answers of the held-handler cases (gen.cs_cases): the case ends with len(live)+1 rounds
-    of (runtime runs; every live consumer polled once) and STATS.  After them: while the subscription exists and
-    STATS shows a non-empty backlog no consumer may still be pending (C06); after a deletion no consumer may be
-    pending (C12); no blocking Pull answers with no messages (the cases stay below its 300 s limit) (C15)."""
+    """C06 / C12 / C15 on the answers of the held-handler cases (gen.cs_cases): the case ends with 2n+3 rounds of
+    (runtime runs; every live consumer polled once) and STATS.  After them: while the subscription exists and
+    STATS shows a non-empty backlog, no unary handler may still be pending and no stream may have gone its last
+    three polls without a batch (C06); after a deletion no consumer may be pending (C12); no blocking Pull answers
+    with no messages (the cases stay below its 300 s limit) and no stream response is empty (C15)."""
     deleted = False
-    last = {}
+    last, streams, recent = {}, set(), {}
     for i, (o, r) in enumerate(zip(ops, lines)):
         ot, rt = o.split(" "), r.split(" ")
         if r.startswith("!"):
             return "C07-noanswer: op %d (%s) got %s" % (i, ot[0], r[:60])
         if ot[0] == "DS" and rt[1:2] == ["0"]:
             deleted = True
+        if ot[0] == "XS" and r == "XS":
+            streams.add(ot[1])
         if ot[0] == "XQ":
-            last[ot[1]] = rt[1] if len(rt) > 1 else "?"
-            if rt[1:2] == ["batch"] and rt[2:3] == ["0"]:
-                return "C15-empty-stream-response: stream %s produced a response without messages at op %d" % (ot[1], i)
+            st = rt[1] if len(rt) > 1 else "?"
+            if st != "gone":
+                last[ot[1]] = st
+                recent.setdefault(ot[1], []).append(st)
             if rt[1:4] == ["done", "0", "0"]:
                 return "C15-empty-blocking-pull: handler %s answered with no messages at op %d, before its wait limit" % (ot[1], i)
+            if rt[1:3] == ["batch", "0"]:
+                return "C15-empty-stream-response: stream %s produced a response without messages at op %d" % (ot[1], i)
         if ot[0] == "XD":
             last.pop(ot[1], None)
     if len(lines) < len(ops):
         return None
-    pending = sorted(k for k, v in last.items() if v == "pending")
     fin = lines[-1].split(" ")
-    if deleted and pending:
-        return "C12-not-released: after the deletion handler(s) %s are still pending at the end of the case" % ",".join(pending)
-    if not deleted and fin[:2] == ["STATS", "0"] and int(fin[3]) > 0 and pending:
+    waiting = sorted(k for k, v in last.items() if v == "pending" and k not in streams)
+    stalled = sorted(k for k, v in last.items() if k in streams and v in ("pending", "batch")
+                     and "batch" not in recent.get(k, [])[-3:])
+    if deleted and (waiting or [k for k in streams if last.get(k) in ("pending", "batch")]):
+        who = waiting + [k for k in sorted(streams) if last.get(k) in ("pending", "batch")]
+        return "C12-not-released: after the deletion handler(s) %s are still open at the end of the case" % ",".join(who)
+    if not deleted and fin[:2] == ["STATS", "0"] and int(fin[3]) > 0 and (waiting or stalled):
         return ("C06-lost-wakeup: backlog is %s at the end of the case, after every consumer had its turns, and handler(s) %s "
-                "are still waiting" % (fin[3], ",".join(pending)))
+                "are still waiting (streams: no batch in their last three polls)" % (fin[3], ",".join(waiting + stalled)))
     return None
